@@ -194,7 +194,16 @@ class World:
 
 
 def gen_times(rng: random.Random, n: int) -> list:
-    style = rng.choice(["int", "int", "float", "neg", "irregular", "np", "decimal"])
+    style = rng.choice(["int", "int", "float", "neg", "irregular", "np", "decimal", "cross_zero",
+                        "offset", "tiny"])
+    if style == "cross_zero":
+        k, step = (rng.randrange(n) if n else 0), rng.choice([0.5, 0.75, 1, 2.5])
+        return [(i - k) * step + 0.0 for i in range(n)]
+    if style == "offset":  # late in a long run: spacing tiny relative to the time
+        t0, step = rng.choice([1e6, 1e9, 123456.0]), rng.choice([1, 1, 0.5])
+        return [t0 + i * step for i in range(n)]
+    if style == "tiny":
+        return [i * 2e-9 for i in range(n)]
     if style == "decimal":
         t0, step = rng.choice([0.1, -3.3, 1 / 3]), rng.choice([0.1, 0.7, 1 / 7])
         return [t0 + i * step for i in range(n)]
